@@ -776,7 +776,7 @@ phases:
 	}
 	// every event must end up counted in updateSent
 	deadline := time.Now().Add(waitLimit)
-	for violated == "" && updateSent.Load() != int64(total) && time.Now().Before(deadline) {
+	for violated == "" && updateSent.Load() < int64(total) && time.Now().Before(deadline) {
 		time.Sleep(200 * time.Microsecond)
 	}
 	committed := updateSent.Load()
